@@ -216,9 +216,11 @@ def solve_scipy(
         )
     finally:
         warnings.showwarning = old_showwarning
-        # what SciPy had already shown the application stays shown
+        # SciPy's record is left as it was found: what this solve swallowed has not
+        # been shown to the application, what had been shown before stays shown
+        _forget_delta_grad_warning()
         for registry, key, value in forgotten:
-            registry.setdefault(key, value)
+            registry[key] = value
 
     solve_time = time.perf_counter() - start_time
 
